@@ -1336,6 +1336,196 @@ fn part_codes(c: &mut Ctx) {
     c.r.sig(&("codes", "round-trip-and-unknown"));
 }
 
+
+// ---------------------------------------------------------------------------------------------
+// Wallet-side evidence gatherer (zcash_client_backend::data_api::zip318), driven without a wallet:
+// v6 transactions are assembled from generated bundles, "decrypted outputs" are fabricated.
+// ---------------------------------------------------------------------------------------------
+
+mod gatherer {
+    use super::*;
+    use orchard::bundle::{Authorized as OAuth, BundleVersion, Flags};
+    use orchard::keys::{FullViewingKey, Scope, SpendingKey};
+    use orchard::note::{NoteVersion, RandomSeed, Rho};
+    use orchard::value::NoteValue;
+    use zcash_client_backend::data_api::zip318::classify_decrypted_tx;
+    use zcash_client_backend::{DecryptedOutput, TransferType};
+    use zcash_primitives::transaction::components::orchard::testing::arb_bundle;
+    use zcash_primitives::transaction::testing::arb_tx;
+    use zcash_primitives::transaction::{Transaction, TransactionData};
+    use zcash_protocol::consensus::BranchId;
+    use zcash_protocol::memo::MemoBytes;
+    use zcash_protocol::value::ZatBalance;
+    use zcash_protocol::ShieldedPool;
+
+    type OBundle = orchard::Bundle<OAuth, ZatBalance>;
+    type Out = DecryptedOutput<(orchard::Note, orchard::ValuePool), u32>;
+
+    fn reversion(b: &OBundle, v: BundleVersion) -> OBundle {
+        let mut byte = u8::from(b.flags().spends_enabled()) | (u8::from(b.flags().outputs_enabled()) << 1);
+        if v == BundleVersion::ironwood_v3() {
+            byte |= 0b100;
+        }
+        let flags = Flags::from_byte(byte, v).expect("representable flags");
+        orchard::Bundle::try_from_parts(b.actions().clone(), flags, *b.value_balance(), *b.anchor(), b.authorization().clone(), v).expect("bundle")
+    }
+
+    fn note(g: &mut ChaCha20Rng, value: u64) -> orchard::Note {
+        let sk = SpendingKey::from_bytes([7; 32]).unwrap();
+        let fvk = FullViewingKey::from(&sk);
+        let recipient = fvk.address_at(0u32, Scope::External);
+        let rho = loop {
+            let b: [u8; 32] = g.r#gen();
+            if let Some(r) = Rho::from_bytes(&b).into_option() {
+                break r;
+            }
+        };
+        let rseed = loop {
+            let b: [u8; 32] = g.r#gen();
+            if let Some(r) = RandomSeed::from_bytes(b, &rho).into_option() {
+                break r;
+            }
+        };
+        orchard::Note::from_parts(recipient, NoteValue::from_raw(value), rho, rseed, NoteVersion::V2).into_option().expect("note")
+    }
+
+    fn out(g: &mut ChaCha20Rng, index: usize, value: u64, ironwood: bool, tt: TransferType) -> Out {
+        let (vp, sp) = if ironwood { (orchard::ValuePool::Ironwood, ShieldedPool::Ironwood) } else { (orchard::ValuePool::Orchard, ShieldedPool::Orchard) };
+        DecryptedOutput::new(index, (note(g, value), vp), sp, 0u32, MemoBytes::empty(), tt)
+    }
+
+    pub fn run(c: &mut Ctx, n_tx: u64) {
+        let mut runner = vh_common::proptest_runner(c.r.args().shard_seed(), 1718);
+        // pools of source / destination bundles by action count, and of "other" parts
+        let mut src: Vec<Option<OBundle>> = vec![None];
+        for n in [1usize, 2, 2, 3, 15, 16, 16, 17] {
+            if let Some(b) = vh_common::draw(&mut runner, &arb_bundle(n)) {
+                src.push(Some(reversion(&b, BundleVersion::orchard_v3())));
+            }
+        }
+        let mut dst: Vec<Option<OBundle>> = vec![None, None];
+        for n in [1usize, 1, 1, 2] {
+            if let Some(b) = vh_common::draw(&mut runner, &arb_bundle(n)) {
+                dst.push(Some(reversion(&b, BundleVersion::ironwood_v3())));
+            }
+        }
+        // donors of transparent / sapling parts
+        let mut donors: Vec<TransactionData<zcash_primitives::transaction::Authorized>> = vec![];
+        for _ in 0..40 {
+            if donors.len() >= 6 {
+                break;
+            }
+            if let Some(tx) = vh_common::draw(&mut runner, &arb_tx(BranchId::Nu6_3)) {
+                let d = tx.into_data();
+                if d.transparent_bundle().is_some() || d.sapling_bundle().is_some() {
+                    donors.push(d);
+                }
+            }
+        }
+        if src.len() < 6 || dst.len() < 4 || donors.is_empty() {
+            c.r.inconclusive("evidence gatherer: could not generate the bundle pools");
+            return;
+        }
+        let consts = Consts { name: "zip318-defaults", prep_actions: PREP_ACTIONS, min: COIN / 100, max: 10_000 * COIN };
+        let values = [COIN / 100, COIN, 2 * COIN, 3 * COIN, 10_000 * COIN, 20_000 * COIN, 5, 0, COIN + 1];
+        let tts = [TransferType::AccountInternal, TransferType::Incoming, TransferType::Outgoing, TransferType::WalletInternal];
+        let mut i = 0;
+        while i < n_tx && c.r.time_left() {
+            i += 1;
+            let g = &mut c.g;
+            let s = src[g.gen_range(0..src.len())].clone();
+            let d = dst[g.gen_range(0..dst.len())].clone();
+            let donor = if g.gen_bool(0.25) { Some(&donors[g.gen_range(0..donors.len())]) } else { None };
+            let expiry: u32 = match g.gen_range(0..6) {
+                0 | 1 | 2 => (g.gen_range(2..200u32)) * EXPIRY_MODULUS as u32,
+                3 => EXPIRY_MODULUS as u32, // a multiple, but below one whole window
+                4 => g.gen_range(2..200u32) * EXPIRY_MODULUS as u32 + g.gen_range(1..EXPIRY_MODULUS as u32),
+                _ => [0, 40, 2_000_040][g.gen_range(0..3)],
+            };
+            let (tb, sb) = match donor {
+                Some(dn) => (dn.transparent_bundle().cloned(), dn.sapling_bundle().cloned()),
+                None => (None, None),
+            };
+            let other_truth = tb.as_ref().is_some_and(|b| !b.vin.is_empty() || !b.vout.is_empty()) || sb.as_ref().is_some_and(|b| !b.shielded_spends().is_empty() || !b.shielded_outputs().is_empty());
+            let (ns, nd) = (s.as_ref().map_or(0, |b| b.actions().len()), d.as_ref().map_or(0, |b| b.actions().len()));
+            let tx: Transaction = match guard(|| TransactionData::from_parts_v6(BranchId::Nu6_3, 0, bh(expiry), tb, sb, s, d).freeze()) {
+                Ok(Ok(t)) => t,
+                _ => {
+                    c.r.inconclusive("evidence gatherer: generated transaction could not be frozen");
+                    continue;
+                }
+            };
+            // fabricate what the wallet could decrypt
+            let n_o = if ns == 0 { 0 } else { g.gen_range(0..=ns.min(3)) };
+            let o_types: Vec<TransferType> = (0..n_o).map(|_| if g.gen_bool(0.75) { TransferType::AccountInternal } else { tts[g.gen_range(0..4)] }).collect();
+            let orchard_outs: Vec<Out> = o_types.iter().enumerate().map(|(k, t)| {
+                let v = g.gen_range(0..3 * COIN);
+                out(g, k, v, false, *t)
+            }).collect();
+            let n_i = if nd == 0 { 0 } else { g.gen_range(0..=nd.min(2)) };
+            let i_vals: Vec<u64> = (0..n_i).map(|_| values[g.gen_range(0..values.len())]).collect();
+            let iron_outs: Vec<Out> = i_vals.iter().enumerate().map(|(k, v)| out(g, k, *v, true, TransferType::AccountInternal)).collect();
+
+            // the documented reading of each clause, derived independently from what was put in
+            let to_self = o_types.iter().any(|t| *t == TransferType::AccountInternal) && o_types.iter().all(|t| *t == TransferType::AccountInternal);
+            let ev = |iv: &[u64]| Ev {
+                src: Some(ns),
+                dst: Some(nd),
+                other: Some(other_truth),
+                to_self: Some(to_self),
+                value: if iv.len() == 1 { Some(iv[0]) } else { None },
+                expiry: Some(expiry as u64 >= EXPIRY_WINDOW && expiry as u64 % EXPIRY_MODULUS == 0),
+                anchor: None,
+                fee: None,
+            };
+            let replay = json!({"op": "classify_decrypted_tx", "orchard_actions": ns, "ironwood_actions": nd, "other_bundles": other_truth, "expiry": expiry,
+                "decrypted_orchard_transfer_types": o_types.iter().map(|t| format!("{t:?}")).collect::<Vec<_>>(), "decrypted_ironwood_values": i_vals});
+            let mut prev: Option<(usize, Zip318Classification)> = None;
+            // reveal the destination outputs one by one (none, then the first, ...)
+            for reveal in 0..=n_i {
+                let e = ev(&i_vals[..reveal]);
+                let got = match guard(|| classify_decrypted_tx(&tx, &orchard_outs, &iron_outs[..reveal], &Defaults)) {
+                    Ok(x) => x,
+                    Err(p) => {
+                        c.viol(&format!("evidence-gatherer:panic:{}", panic_class(&p)), p, replay.clone());
+                        break;
+                    }
+                };
+                c.r.case(&("gatherer", ns.min(18), nd, other_truth, to_self, e.value.map(|v| on_series_in(v, consts.min, consts.max)), e.expiry, cname(got)), true);
+                c.r.count("evidence_gatherer_calls", 1);
+                c.r.count(&format!("evidence_gatherer_{}", cname(got).replace(['(', ')'], "_").to_lowercase()), 1);
+                if got == Zip318Classification::Nonconforming && (e.can_prep(&consts) || e.can_xfer(&consts)) {
+                    c.viol("evidence-gatherer:refuted-without-negative-observation", format!("Nonconforming, but nothing observed contradicts a ZIP 318 shape: {e:?}"), replay.clone());
+                }
+                // a decision survives the arrival of more decrypted data, as long as the growth is one
+                // the information ordering knows (None -> value)
+                if let Some((r0, c0)) = prev {
+                    let grew = ev(&i_vals[..r0]).value.is_none();
+                    if grew && c0 != Zip318Classification::Unknown && c0 != got {
+                        c.viol(
+                            &format!("evidence-gatherer:decision-changed:{}->{}", cname(c0), cname(got)),
+                            format!("{} with {r0} destination outputs decrypted, {} with {reveal}", cname(c0), cname(got)),
+                            replay.clone(),
+                        );
+                    }
+                }
+                // diagnostic: the label the documented clauses determine
+                let want = if e.can_prep(&consts) {
+                    Zip318Classification::Conforms(Zip318TxKind::Preparation)
+                } else if e.can_xfer(&consts) {
+                    if e.value.is_some() { Zip318Classification::Conforms(Zip318TxKind::Transfer) } else { Zip318Classification::Unknown }
+                } else {
+                    Zip318Classification::Nonconforming
+                };
+                if want != got {
+                    c.r.count("model_divergence_gatherer_label", 1);
+                }
+                prev = Some((reveal, got));
+            }
+        }
+    }
+}
+
 // ---------------------------------------------------------------------------------------------
 
 fn main() {
@@ -1345,7 +1535,7 @@ fn main() {
         r: Reporter::new("C17", &args),
         g: vh_common::rng(args.shard_seed(), 17),
         seed_ctr: 0,
-        adv_budget: args.get_u64("adv-rng-words", 100_000),
+        adv_budget: args.get_u64("adv-rng-words", 4_096),
         chacha_budget: args.get_u64("chacha-rng-words", 1_000_000),
     };
 
@@ -1360,12 +1550,23 @@ fn main() {
     }
     let scale = args.get_u64("scale", 1);
     let q = |quick: u64, thorough: u64| scale * args.pick(quick, thorough);
+    let t = |c: &Ctx, what: &str| eprintln!("[shard {}] {what} done at {:.1}s", args.shard, c.r.elapsed().as_secs_f64());
+    t(&c, "lattice");
     part_grid(&mut c, q(50_000, 2_000_000));
-    part_delay(&mut c, q(60_000, 1_500_000));
-    part_heights(&mut c, q(15_000, 300_000));
-    part_shuffle(&mut c, q(40_000, 600_000));
-    part_anchor(&mut c, q(60_000, 1_200_000));
-    part_wakeups(&mut c, q(25_000, 250_000));
+    t(&c, "grid");
+    part_delay(&mut c, q(200_000, 1_500_000));
+    t(&c, "delay");
+    part_heights(&mut c, q(50_000, 300_000));
+    t(&c, "heights");
+    part_shuffle(&mut c, q(100_000, 600_000));
+    t(&c, "shuffle");
+    part_anchor(&mut c, q(150_000, 1_200_000));
+    t(&c, "anchor");
+    part_wakeups(&mut c, q(120_000, 250_000));
+    t(&c, "wakeups");
     part_expiry(&mut c, &args);
+    t(&c, "expiry");
+    gatherer::run(&mut c, q(1_500, 40_000));
+    t(&c, "gatherer");
     c.r.finish();
 }
